@@ -186,6 +186,10 @@ theorem C03_recover_blocks_canonical : Skeleton.current.recoverBlocksCanonical =
 theorem C03_closure_release_never_waits :
     Skeleton.current.clFreeNeverWaits = true ∧ Skeleton.current.clInvokeOutsideLock = true ∧ Skeleton.current.stubClosureFreeDeferred = true := by decide
 
+/-- A closure invocation in flight when the link ends is an in-flight call of M2 made by the proxy THROUGH `utils.Call`: the error the stub returns (e.g. `context.DeadlineExceeded` when the link's context ran into its deadline — a zero-valued struct) reaches the handler only if `utils.Call` hands the results back untouched (checked against the regenerated skeleton). -/
+theorem C03_nested_call_errors_pass_through_utils_call :
+    Skeleton.current.ucResultsUntouched = true ∧ Skeleton.current.ucNoWaiting = true := by decide
+
 end Panrpc.Ep
 
 #print axioms Panrpc.Ep.C03_read_failure_reaches_setErr
@@ -205,3 +209,4 @@ end Panrpc.Ep
 #print axioms Panrpc.Ep.C03_setErr_always_closes
 #print axioms Panrpc.Ep.C03_recover_blocks_canonical
 #print axioms Panrpc.Ep.C03_closure_release_never_waits
+#print axioms Panrpc.Ep.C03_nested_call_errors_pass_through_utils_call
